@@ -924,6 +924,70 @@ class Interp(seq_detached.DetachedMixin, S.SeqRun):
                 self.op_r_attr_of(o, eo.attrs[r.below(len(eo.attrs))])
         return st
 
+    def op_chain(self, a, b, c):
+        """Stored rows P <- C <- D (C's row refers to P, D's row refers to C).  In one flush window: C is modified,
+        P deleted, D re-pointed to another row / detached / deleted, C deleted - each step only as far as the model
+        allows - then flush.  C's DELETE moves to the end of the save queue (it was modified first), P's DELETE has
+        to wait for it and it has to wait for D's UPDATE or DELETE: the statements can always be ordered, the
+        early-delete machinery of flush has to find the order (C16)."""
+        r = Rng(0, 'chain', a, b, c)
+
+        def col_refs(o):
+            e = self.schema.by_name[o.ent]
+            return [ra for ra in e.to_ones() if getattr(self.E[o.ent], ra.name).columns]
+
+        chains = []
+        stored = [o for o in self.live_sorted() if o.stored and o.pk is not None]
+        for C in stored:
+            ups = [(ra, self.view.get_one(ra, C.mid)) for ra in col_refs(C)]
+            ups = [(ra, m) for ra, m in ups if m is not None and m != C.mid and self.view.objs[m].stored]
+            if not ups:
+                continue
+            downs = []
+            for D in stored:
+                if D.mid == C.mid:
+                    continue
+                for rd in col_refs(D):
+                    if self.view.get_one(rd, D.mid) == C.mid:
+                        downs.append((D, rd))
+            for ra, pm in ups:
+                for D, rd in downs:
+                    if D.mid != pm:
+                        chains.append((pm, ra, C, D, rd))
+        if not chains:
+            return None
+        pm, ra, C, D, rd = chains[r.below(len(chains))]
+        self.probe('chain_scenario')
+        others = [o.mid for o in stored if o.mid not in (C.mid, D.mid, pm)
+                  and (o.ent == rd.rel or self.view._is_sub(o.ent, rd.rel))]
+        for m in [pm, C.mid, D.mid] + others[:1]:
+            self.handle_or_poison(m)
+        # 1. C is modified (its UPDATE is queued)
+        idx = [o.mid for o in self.live_sorted()].index(C.mid)
+        self.op_set(idx, r.below(1000), r.below(1000))
+        # 2. P goes
+        if not self.view.objs[pm].deleted:
+            self.op_del_of(self.view.objs[pm])
+        # 3. D stops referring to C
+        k = r.below(10)
+        if not self.view.objs[D.mid].deleted and self.view.get_one(rd, D.mid) == C.mid:
+            if k < 5 and others:
+                t = others[0]
+                self.modify('rel %s#%d.%s=#%d' % (D.ent, D.mid, rd.name, t),
+                            lambda: setattr(self.handle(D.mid), rd.name, self.handle(t)),
+                            lambda v: v.set_to_one(D.mid, rd, t), mids=[D.mid, t])
+            elif k < 7 and not rd.required:
+                self.modify('rel %s#%d.%s=None' % (D.ent, D.mid, rd.name),
+                            lambda: setattr(self.handle(D.mid), rd.name, None),
+                            lambda v: v.set_to_one(D.mid, rd, None), mids=[D.mid])
+            elif k < 9:
+                self.op_del_of(self.view.objs[D.mid])
+        # 4. C goes (refused by the rules when D still needs it: then the flush has less to order)
+        if not self.view.objs[C.mid].deleted:
+            self.op_del_of(self.view.objs[C.mid])
+        self.op_flush()
+        return 'ok'
+
     def op_cycle(self, a, b, c):
         """new objects that refer to each other in a cycle (or one that refers to itself), optionally after a
         pending removal of a stored many-to-many link, then a flush: the cycle cannot be ordered, the flush has to
@@ -1977,7 +2041,7 @@ class Interp(seq_detached.DetachedMixin, S.SeqRun):
                     g_before = simdb.ctx.g
                     if (self.blind or self.peer) and name in ('commit', 'rollback'):
                         name = 'flush'       # a carried-on session is rolled back at its end, nowhere else
-                    if self.peer and name in ('bulk_del', 'peer', 'cycle', 'fail_probe', 'partial'):
+                    if self.peer and name in ('bulk_del', 'peer', 'cycle', 'fail_probe', 'partial', 'chain'):
                         continue
                     try:
                         self.dispatch(name, a, b, c)
@@ -2135,6 +2199,9 @@ class Interp(seq_detached.DetachedMixin, S.SeqRun):
         elif name == 'cycle':
             if not self.knobs.get('hook_mode'):
                 self.op_cycle(a, b, c)
+        elif name == 'chain':
+            if self.knobs.get('hook_mode') not in ('modify', 'create', 'link', 'after_edit'):
+                self.op_chain(a, b, c)
         elif name == 'partial':
             if self.knobs.get('hook_mode') not in ('modify', 'create', 'link', 'after_edit'):
                 self.op_partial(a, b, c)
